@@ -50,7 +50,7 @@ def offsets(src):
 
 
 def gen_file(fname):
-    path = os.path.join(REPO, "torrentfile", fname)
+    path = os.path.join(SNAP, fname)
     src = open(path, encoding="utf-8").read()
     bsrc = src.encode()
     starts = offsets(src)
@@ -137,9 +137,12 @@ def gen_file(fname):
     return good
 
 
+SNAP = os.path.join(WORK, "src")      # the sources the mutants were generated from
+
+
 def apply(m, root):
     path = os.path.join(root, "torrentfile", m["file"])
-    b = open(os.path.join(REPO, "torrentfile", m["file"]), "rb").read()
+    b = open(os.path.join(SNAP, m["file"]), "rb").read()
     open(path, "wb").write(b[:m["a"]] + m["new"].encode() + b[m["b"]:])
 
 
@@ -160,13 +163,28 @@ def save(ms):
 
 
 def cmd_gen():
-    os.makedirs(WORK, exist_ok=True)
+    os.makedirs(SNAP, exist_ok=True)
+    old = {}
+    if os.path.exists(os.path.join(WORK, "mutants.json")):
+        for m in load():
+            if "tests" in m:
+                old[(m["file"], m["line"], m["kind"], m["old"], m["new"], m["a"])] = m
+    changed = {f for f in FILES if not os.path.exists(os.path.join(SNAP, f)) or
+               open(os.path.join(SNAP, f), "rb").read() != open(os.path.join(REPO, "torrentfile", f), "rb").read()}
+    for f in FILES:
+        shutil.copyfile(os.path.join(REPO, "torrentfile", f), os.path.join(SNAP, f))
     ms = []
     for f in FILES:
         ms += gen_file(f)
     for n, m in enumerate(ms):
         m["id"] = n
+        o = old.get((m["file"], m["line"], m["kind"], m["old"], m["new"], m["a"]))
+        if o and m["file"] not in changed:       # results for unchanged files carry over
+            for k in ("tests", "tests_tail", "checks", "checks_by"):
+                if k in o:
+                    m[k] = o[k]
     save(ms)
+    print("files changed since the last generation:", sorted(changed), "carried over:", sum(1 for m in ms if "tests" in m))
     from collections import Counter
     print(len(ms), "mutants", Counter(m["file"] for m in ms))
 
@@ -174,7 +192,7 @@ def cmd_gen():
 def run_tests(m, slot):
     root = os.path.join(WORK, "w%d" % slot)
     for f in FILES:        # restore pristine sources in this slot
-        shutil.copyfile(os.path.join(REPO, "torrentfile", f), os.path.join(root, "torrentfile", f))
+        shutil.copyfile(os.path.join(SNAP, f), os.path.join(root, "torrentfile", f))
     apply(m, root)
     os.makedirs(os.path.join(root, "home"), exist_ok=True)     # the suite writes below Path.home()
     try:
@@ -230,7 +248,7 @@ def cmd_checks(limit, files=None):
     fresh_copy(root)
     for n, m in enumerate(todo):
         for f in FILES:
-            shutil.copyfile(os.path.join(REPO, "torrentfile", f), os.path.join(root, "torrentfile", f))
+            shutil.copyfile(os.path.join(SNAP, f), os.path.join(root, "torrentfile", f))
         apply(m, root)
         verdict, by = "survived", None
         for pid in PROPS[m["file"]]:
